@@ -176,7 +176,68 @@ def main(tier, seed):
                 rep.violation('unsupported:' + name, 'documented unsupported operation (%s) returned an adjoint instead of raising' % name, dict(kind='unsupported', op=name))
         except Exception as e:
             rep.notes.append('unsupported-op probe %s: %r' % (name, e))
+    matrix_rules_section(rep, ap, rng, tier)
     return rep.finish()
+
+
+def matrix_rules_section(rep, ap, rng, tier):
+    """the array-level reverse rules called directly (UTPM.pb_dot / pb_inv / pb_solve / pb_trace) against the executable rules of
+    MatPullbackExec.v (proved to be the transposes of the differentials, Props/C03.v), exactly evaluated over Qc"""
+    import c07
+    from fractions import Fraction as F
+    U = ap.UTPM
+    terms, metas = [], []
+    tol = F(1, 2 ** 24)
+    for it in range(10 if tier == 'quick' else 120):
+        D = rng.randint(1, 4); P = rng.randint(1, 2)
+        n, m, k = rng.randint(1, 3), rng.randint(1, 3), rng.randint(1, 3)
+        mk = lambda *shp: c07.mat_utpm(rng, D, P, *shp)
+        lit = c07.serlit
+        try:
+            # ---- dot
+            x, y, zb = mk(n, m), mk(m, k), mk(n, k)
+            z = U.dot(U(x.copy()), U(y.copy()))
+            xb, yb = U.pb_dot(U(zb.copy()), U(x.copy()), U(y.copy()), z)
+            for p in range(P):
+                terms.append('(mxs_close %s %d %d (pb_dotU_x %d %d %d %s %s) %s && mxs_close %s %d %d (pb_dotU_y %d %d %d %s %s) %s)' % (
+                    lib.qlit(tol), n, m, n, m, k, lit(zb, p), lit(y, p), lit(numpy.asarray(xb.data), p),
+                    lib.qlit(tol), m, k, n, m, k, lit(x, p), lit(zb, p), lit(numpy.asarray(yb.data), p)))
+                metas.append(dict(rule='pb_dot', n=n, m=m, k=k, D=D, direction=p))
+            # ---- inv
+            bases = [c07.base_matrix(rng, n) for _ in range(P)]
+            A = c07.mat_utpm(rng, D, P, n, n, base=lambda p_: bases[p_])
+            Yb = mk(n, n)
+            Y = U.inv(U(A.copy()))
+            Ab = U.pb_inv(U(Yb.copy()), U(A.copy()), Y)
+            sc = F(1 + float(numpy.max(numpy.abs(Y.data)))) ** 2
+            for p in range(P):
+                terms.append('(mxs_close %s %d %d (pb_invU %d %s %s) %s)' % (lib.qlit(tol * sc), n, n, n, lit(Yb, p), lit(numpy.asarray(Y.data), p), lit(numpy.asarray(Ab.data), p)))
+                metas.append(dict(rule='pb_inv', n=n, D=D, direction=p))
+            # ---- solve
+            B = mk(n, k); Xb = mk(n, k)
+            X = U.solve(U(A.copy()), U(B.copy()))
+            Abar, Bbar = U.pb_solve(U(Xb.copy()), U(A.copy()), U(B.copy()), X)
+            for p in range(P):
+                T = '(pb_solveU_T %d %d %s %s %s)' % (n, k, lit(A, p), c07.mxlit(numpy.linalg.inv(bases[p].T)), lit(Xb, p))
+                terms.append('(mxs_close %s %d %d (pb_solveU_A %d %d %s %s) %s && mxs_close %s %d %d (pb_solveU_x %d %d %s) %s)' % (
+                    lib.qlit(tol * sc), n, n, n, k, T, lit(numpy.asarray(X.data), p), lit(numpy.asarray(Abar.data), p),
+                    lib.qlit(tol * sc), n, k, n, k, T, lit(numpy.asarray(Bbar.data), p)))
+                metas.append(dict(rule='pb_solve', n=n, k=k, D=D, direction=p))
+        except Exception as e:
+            rep.violation('matrix-rule:exception', 'direct call of a matrix pullback rule raises %r' % (e,), dict(kind='matrix-rule', exc=repr(e)))
+    verdicts, logs = lib.eval_bool_cases(PID + 'm', 'QcField Sums Series Matrix MatPullbackExec', c07.DEFS, terms, per_file=20)
+    bad = 0
+    for mt, vd, t in zip(metas, verdicts, terms):
+        rep.count('matrix rule', mt['rule'])
+        rep.case(('matrix-rule', t[:400]), mt['D'] >= 2, sample=mt)
+        if vd is None:
+            bad += 1
+        elif not vd:
+            rep.violation('matrix-rule:' + mt['rule'], '%s: the adjoint the implementation returns differs from the proved executable rule (MatPullbackExec.v)' % mt['rule'],
+                          dict(kind='matrix-rule', case=mt, coq_term=t[:4000]))
+    if bad or logs:
+        rep.violation('corr:uneval:matrix-rules', 'correspondence corr.C03 (matrix rules) could not be evaluated for %d cases' % bad,
+                      dict(kind='correspondence', name='corr.C03.matrix-rules', log=logs[:3]), no_input=True)
 
 
 def replay(path):
